@@ -16,7 +16,7 @@
    write_section_headers and the final header overwrite).
    Not modelled: ET_DYN (.dynamic, PT_DYNAMIC), create_hash_table, DWARF sections. *)
 From PV Require Import Lib.Py Gen.Tab_elf Model.ElfWriter Spec.ElfSpec.
-From PV Require Import Proofs.C17_codec Proofs.C17_recover Proofs.C17_bounded.
+From PV Require Import Proofs.C17_codec Proofs.C17_recover Proofs.C17_bounded Proofs.C17_file.
 From Coq Require Import String.
 Open Scope Z_scope.
 
@@ -116,6 +116,48 @@ Theorem c17_native_order_bigendian_refuted :
                 export_object ht 189 empty_obj et_rel = Ok bs /\ read bs = None.
 Proof. exact native_big_rejected. Qed.
 Print Assumptions c17_native_order_bigendian_refuted.
+
+(* ---- whole files, UNBOUNDED (every object, relocatable and executable): the offset bookkeeping of
+        export_object.  For every file the writer returns: every image has a program header record whose file
+        range holds Image.data, every section of an image and every section written by write_sections (first
+        of its name, not already numbered by an image) has a PROGBITS header record whose sh_offset range in the
+        FINAL file (after the ELF/program header overwrite) holds exactly the section's bytes, with size, address,
+        alignment and a name index into the writer's string table [st].  Proved through the invariant of
+        Proofs/C17_file.v (file only grows, recorded ranges inside the file, lower bound of every recorded offset
+        above the header area).  Still missing for the full reader statement: that the section/program header
+        TABLES and [st] themselves sit at e_shoff / e_phoff / the .strtab offset (write_section_headers,
+        write_string_table and symbol/RELA table contents) — those stay covered by the layer theorems plus the
+        bounded theorem below. ---- *)
+Theorem c17_file_layout : forall ht machine o et bs,
+  export_object ht machine o et = Ok bs -> image_names_ok o ->
+  exists st,
+    (with_images o et = true -> forall im, In im (mo_images o) ->
+       seg_in_file bs im /\ forall sec, In sec (mi_secs im) -> sec_in_file bs st sec)
+    /\ (forall pre sec post, mo_sections o = pre ++ sec :: post ->
+          (with_images o et = true -> ~ In (ms_name sec) (map ms_name (List.concat (map mi_secs (mo_images o))))) ->
+          ~ In (ms_name sec) (map ms_name pre) -> sec_in_file bs st sec).
+Proof. exact export_layout. Qed.
+Print Assumptions c17_file_layout.
+
+(* what a reader gets from such a header record: contents by slice, address, alignment, type, name *)
+Theorem c17_sections_recovered_partial : forall bs st sec, sec_in_file bs st sec ->
+  exists h, slice bs (hget h "sh_offset") (hget h "sh_size") = Some (ms_data sec)
+            /\ hget h "sh_addr" = ms_addr sec /\ hget h "sh_addralign" = ms_align sec /\ hget h "sh_type" = 1
+            /\ (nul_free (ms_name sec) = true ->
+                forall ext, strtab_get (st ++ ext) (hget h "sh_name") = Some (str_bytes (ms_name sec))).
+Proof. exact sec_in_file_slice. Qed.
+Print Assumptions c17_sections_recovered_partial.
+
+(* every virtual address inside a section of an image shows, through the image's PT_LOAD record, the image byte;
+   p_offset is congruent to p_vaddr modulo the page size once write_images pads (segments_congruent) *)
+Theorem c17_segments_match_images_in_file : forall bs im, seg_in_file bs im ->
+  exists ph, p_type (phdr_of ph) = 1 /\ p_vaddr (phdr_of ph) = mi_addr im
+    /\ p_filesz (phdr_of ph) = p_memsz (phdr_of ph)
+    /\ (segments_congruent = true -> (p_offset (phdr_of ph) - p_vaddr (phdr_of ph)) mod page_size = 0)
+    /\ forall sec i b, In sec (mi_secs im) -> nth_error (ms_data sec) i = Some b ->
+          segment_byte bs (phdr_of ph) (ms_addr sec + Z.of_nat i) = Some b.
+Proof. exact seg_in_file_bytes. Qed.
+Print Assumptions c17_segments_match_images_in_file.
 
 (* ---- whole files, bounded: 82 relocatable + 320 executable objects (4 little-endian machines; 0-3 sections,
         0-5 symbols local/global/undefined, 0-4 relocations on x86_64, 0-2 images, two base addresses):
